@@ -348,7 +348,9 @@ namespace occa {
       if (io::exists(dependency)) {
         // Check whether the dependency changed
         hash_t newDependencyHash = hashFile(dependency);
-        newKernelHash ^= newDependencyHash;
+        // Mix in the dependency together with its name: bare content hashes of
+        // two identical files would cancel out and hide that both changed
+        newKernelHash ^= occa::hash(dependency + newDependencyHash.getFullString());
 
         if (dependencyHash != newDependencyHash) {
           foundDependencyChanges = true;
